@@ -82,8 +82,10 @@ fn construct(r: &mut Rng) -> Val {
             Val::S { v: SharedString::from_borrowed(s), model: s.to_string(), arc: None }
         }
         2 => {
+            // the String itself is handed over (a clone would lose its spare capacity)
             let s = mk_string(r);
-            Val::S { v: SharedString::from(s.clone()), model: s, arc: None }
+            let model = s.clone();
+            Val::S { v: SharedString::from(s), model, arc: None }
         }
         3 => {
             let s = mk_string(r);
@@ -92,15 +94,21 @@ fn construct(r: &mut Rng) -> Val {
         }
         4 => {
             let s = mk_string(r);
-            let c: std::borrow::Cow<'static, str> = if r.below(2) == 0 { std::borrow::Cow::Owned(s.clone()) } else { std::borrow::Cow::Borrowed("borrowed-std") };
+            let c: std::borrow::Cow<'static, str> = if r.below(2) == 0 { std::borrow::Cow::Owned(s) } else { std::borrow::Cow::Borrowed("borrowed-std") };
             let model = c.to_string();
             Val::S { v: SharedString::from(c), model, arc: None }
         }
         5 => {
             // key with owned labels (elements have destructors)
             let n = r.below(4) as usize;
-            let labels: Vec<(String, String)> = (0..n).map(|i| (format!("k{}", i), mk_string(r))).collect();
-            let v = Key::from_parts(mk_string(r) + "n", labels.iter().map(|(k, v)| Label::new(k.clone(), v.clone())).collect::<Vec<_>>());
+            let values: Vec<String> = (0..n).map(|_| mk_string(r)).collect();
+            let labels: Vec<(String, String)> = values.iter().enumerate().map(|(i, v)| (format!("k{}", i), v.clone())).collect();
+            // label vector with spare capacity (also when it stays empty); values moved in, not cloned
+            let mut lv: Vec<Label> = Vec::with_capacity(n + [0usize, 0, 2, 5][r.below(4) as usize]);
+            for (i, v) in values.into_iter().enumerate() {
+                lv.push(Label::new(format!("k{}", i), v));
+            }
+            let v = Key::from_parts(mk_string(r) + "n", lv);
             let name = v.name().to_string();
             Val::K { v, name, labels }
         }
@@ -245,8 +253,10 @@ fn program(seed: u64) {
     // Arc-backed values: once everything is dropped the harness holds the only reference
     let arcs: Vec<Arc<str>> = live.iter().filter_map(|v| if let Val::S { arc: Some(a), .. } = v { Some(a.clone()) } else { None }).collect();
     drop(live);
-    for a in arcs {
-        assert_eq!(Arc::strong_count(&a), 1, "an Arc reference taken by a shared value was not given back");
+    // (several live values may have shared one Arc: the harness then holds that many handles)
+    for a in &arcs {
+        let mine = arcs.iter().filter(|b| Arc::ptr_eq(a, b)).count();
+        assert_eq!(Arc::strong_count(a), mine, "an Arc reference taken by a shared value was not given back");
     }
 }
 
